@@ -1,6 +1,6 @@
 (* C17 — property theorems (statements only; proofs are in C17/*.v) *)
 From Coq Require Import ZArith QArith List Bool.
-From PPV Require Import Base.QN C17.Model C17.Proofs C17.KKT C17.Table.
+From PPV Require Import Base.QN C17.Model C17.Proofs C17.KKT C17.Table C17.Pwl C17.Rows.
 Import ListNotations.
 Open Scope Q_scope.
 
@@ -74,6 +74,103 @@ Theorem C17_fill_poly_is_writes : forall e m cs isq,
 Proof. exact fill_poly_is_writes. Qed.
 Print Assumptions C17_fill_poly_is_writes.
 
+(* the table WITH reactive cost rows (q_costs = true: 2 ng rows, reactive writes at row g + ng after the active ones):
+   every entry owns its active row g and its reactive row g + ng, which evaluate to the user's active / reactive
+   polynomial at the element's own p / q; all other rows cost 0 *)
+Theorem C17_poly_rows_spec_q : forall (isq : bool) (gcs : list (Z * pcost)) (ngn : nat),
+  (forall gc, In gc gcs -> (0 <= fst gc < Z.of_nat ngn)%Z) -> NoDup (map fst gcs) ->
+  (isq = false -> forall gc, In gc gcs -> cp2 (snd gc) == 0 /\ cq2 (snd gc) == 0) ->
+  exists m', fill_writes isq ngn gcs (repeat (zero_row isq) (2 * ngn)) = Ok m' /\
+    List.length m' = (2 * ngn)%nat /\
+    (forall gc p q, In gc gcs -> exists rp rq,
+        nth_error m' (Z.to_nat (fst gc)) = Some rp /\ nth_error m' (Z.to_nat (fst gc) + ngn) = Some rq /\
+        polycost rp (res_sign (pc_et (snd gc)) * p) == user_poly (cp0 (snd gc)) (cp1 (snd gc)) (cp2 (snd gc)) p /\
+        polycost rq (res_sign (pc_et (snd gc)) * q) == user_poly (cq0 (snd gc)) (cq1 (snd gc)) (cq2 (snd gc)) q) /\
+    (forall j x, (j < 2 * ngn)%nat ->
+        (forall gc, In gc gcs -> Z.to_nat (fst gc) <> j /\ (Z.to_nat (fst gc) + ngn)%nat <> j) ->
+        exists r, nth_error m' j = Some r /\ polycost r x == 0).
+Proof. exact poly_rows_spec_q. Qed.
+Print Assumptions C17_poly_rows_spec_q.
+
+Theorem C17_fill_poly_q_is_writes : forall e m cs isq,
+  fill_poly e m cs isq true
+  = bind (map_costs e (fun c => (pc_et c, pc_el c)) cs) (fun gcs => fill_writes isq (ng e) gcs m).
+Proof. exact fill_poly_q_is_writes. Qed.
+Print Assumptions C17_fill_poly_q_is_writes.
+
+(* ... and stated on _fill_gencost_poly itself: with lookups that point into the ppc gen table the row bounds need not be
+   assumed, they follow from _map_costs_to_gen / _get_gen_index (no negative row, no wrap-around) *)
+Theorem C17_fill_poly_q_spec : forall e cs isq gcs,
+  lookups_below e -> map_costs e (fun c => (pc_et c, pc_el c)) cs = Ok gcs -> NoDup (map fst gcs) ->
+  (isq = false -> forall gc, In gc gcs -> cp2 (snd gc) == 0 /\ cq2 (snd gc) == 0) ->
+  exists m', fill_poly e (repeat (zero_row isq) (2 * ng e)) cs isq true = Ok m' /\
+    List.length m' = (2 * ng e)%nat /\
+    (forall gc p q, In gc gcs -> exists rp rq,
+        nth_error m' (Z.to_nat (fst gc)) = Some rp /\ nth_error m' (Z.to_nat (fst gc) + ng e) = Some rq /\
+        polycost rp (res_sign (pc_et (snd gc)) * p) == user_poly (cp0 (snd gc)) (cp1 (snd gc)) (cp2 (snd gc)) p /\
+        polycost rq (res_sign (pc_et (snd gc)) * q) == user_poly (cq0 (snd gc)) (cq1 (snd gc)) (cq2 (snd gc)) q) /\
+    (forall j x, (j < 2 * ng e)%nat ->
+        (forall gc, In gc gcs -> Z.to_nat (fst gc) <> j /\ (Z.to_nat (fst gc) + ng e)%nat <> j) ->
+        exists r, nth_error m' j = Some r /\ polycost r x == 0).
+Proof. exact fill_poly_q_spec. Qed.
+Print Assumptions C17_fill_poly_q_spec.
+
+Example C17_poly_rows_q_nonvacuous :
+  exists m', fill_writes true 2
+      [(1%Z, {| pc_et := Load; pc_el := 0; cp0 := 5; cp1 := 2; cp2 := 1; cq0 := 3; cq1 := 1; cq2 := 1 # 2 |})]
+      (repeat (zero_row true) 4) = Ok m' /\
+    nth_error m' 1 = Some {| g_model := 2; g_ncost := 3; g_c := [1; -2; 5] |} /\
+    nth_error m' 3 = Some {| g_model := 2; g_ncost := 3; g_c := [1 # 2; -1; 3] |}.
+Proof. exact poly_rows_q_nonvacuous. Qed.
+
+(* _map_costs_to_gen / _get_gen_index: the mapped list holds exactly the entries that have a row; a row index is the
+   lookup value of the element and never negative; an element outside the ppc (lookup value -1) has NO row, its entry
+   writes nothing; with lookups into the ppc gen table every mapped row is a valid row *)
+Theorem C17_map_costs_in : forall e (cs : list pcost) gcs, map_costs e (fun c => (pc_et c, pc_el c)) cs = Ok gcs ->
+  forall g c, In (g, c) gcs <-> In c cs /\ get_gen_index e (pc_et c) (pc_el c) = Ok (Some g).
+Proof. exact (fun e cs => map_costs_in e (fun c => (pc_et c, pc_el c)) cs). Qed.
+Print Assumptions C17_map_costs_in.
+Theorem C17_row_index_is_lookup_nonneg : forall e t el g, t <> Dcline -> get_gen_index e t el = Ok (Some g) ->
+  lookup_get (lookup_of e t) el = Some g /\ (0 <= g)%Z.
+Proof. exact (fun e t el g Ht H => conj (get_gen_index_is_lookup e t el g Ht H) (get_gen_index_nonneg e t el g H)). Qed.
+Print Assumptions C17_row_index_is_lookup_nonneg.
+Theorem C17_absent_element_no_row : forall e t el v, t <> Dcline ->
+  lookup_get (lookup_of e t) el = Some v -> (v < 0)%Z -> get_gen_index e t el = Ok None.
+Proof. exact absent_element_no_row. Qed.
+Print Assumptions C17_absent_element_no_row.
+Theorem C17_absent_element_dropped : forall e (c : pcost) cs v, pc_et c <> Dcline ->
+  lookup_get (lookup_of e (pc_et c)) (pc_el c) = Some v -> (v < 0)%Z ->
+  map_costs e (fun c => (pc_et c, pc_el c)) (c :: cs) = map_costs e (fun c => (pc_et c, pc_el c)) cs.
+Proof. exact (fun e => absent_element_dropped e (fun c => (pc_et c, pc_el c))). Qed.
+Print Assumptions C17_absent_element_dropped.
+Theorem C17_map_costs_rows_valid : forall e (cs : list pcost) gcs, lookups_below e ->
+  map_costs e (fun c => (pc_et c, pc_el c)) cs = Ok gcs -> forall gc, In gc gcs -> (0 <= fst gc < Z.of_nat (ng e))%Z.
+Proof. exact (fun e => map_costs_rows_valid e (fun c => (pc_et c, pc_el c))). Qed.
+Print Assumptions C17_map_costs_rows_valid.
+(* regression: before the repair the value -1 was used as the row index and addressed the last row of the table *)
+Theorem C17_absent_old_refuted :
+  get_gen_index_wrap_old env_absent Sgen 0 = Ok (Some (-1)%Z) /\
+  (exists m', write_row (repeat (zero_row false) 2) (-1) 2 [7; 0] = Ok m' /\
+              nth_error m' 1 = Some {| g_model := 2; g_ncost := 2; g_c := [7; 0] |}) /\
+  get_gen_index env_absent Sgen 0 = Ok None.
+Proof. exact absent_old_refuted. Qed.
+Print Assumptions C17_absent_old_refuted.
+
+(* dcline, position -> label: net.gen = user's gens ++ auxiliary gens (to-bus, from-bus per dcline, in the order of
+   net.dcline).  The cost entry of the dcline labelled el, k-th row of net.dcline, addresses the ppc row of the gen
+   labelled aux[2k+1] — its from-bus generator — for any (gapped, unsorted) labels *)
+Theorem C17_dcline_row_spec : forall e (user aux : list Z) k el lab,
+  gen_labels e = user ++ aux -> List.length aux = (2 * List.length (dcl_index e))%nat ->
+  n_gen_tab e = Z.of_nat (List.length (gen_labels e)) -> NoDup (dcl_index e) ->
+  nth_error (dcl_index e) k = Some el -> nth_error aux (2 * k + 1) = Some lab ->
+  get_gen_index e Dcline el = Ok (nonneg (lookup_get (lk_gen e) lab)).
+Proof. exact dcline_row_spec. Qed.
+Print Assumptions C17_dcline_row_spec.
+Example C17_dcline_row_spec_nonvacuous :
+  gen_labels env_gapped = [0; 2]%Z ++ [3; 4]%Z /\ nth_error (dcl_index env_gapped) 0 = Some 0%Z /\
+  get_gen_index env_gapped Dcline 0 = Ok (Some 4%Z).
+Proof. exact dcline_row_spec_nonvacuous. Qed.
+
 (* piecewise linear cost with one area: for every element kind the gencost row, evaluated as the OPF objective
    evaluates it at the generator variable res_sign * p, is the user's function slope * p *)
 Theorem C17_pwl_single_area : forall t l u sl p, ~ u == l ->
@@ -88,6 +185,36 @@ Theorem C17_pwl_two_areas : forall t l m u s1 s2 p, l < m -> m < u -> s1 <= s2 -
             /\ v == user_pwl [(l, m, s1); (m, u, s2)] p.
 Proof. exact pwl_two_areas. Qed.
 Print Assumptions C17_pwl_two_areas.
+
+(* ANY number of consecutive areas with non-decreasing slopes (convex_areas = consecutive && nondecr_slopes), every
+   element kind (load / storage / dcline: breakpoints mirrored and listed in reverse): the value the OPF objective
+   gives the row at the generator variable res_sign * p is the user's function at the element's own power p *)
+Theorem C17_pwl_convex_areas : forall t pts p, pts <> [] -> convex_areas pts = true ->
+  exists v, obj_of_res (pwl_row t pts) (res_sign t * p) = Some v /\ v == user_pwl pts p.
+Proof. exact pwl_convex_areas. Qed.
+Print Assumptions C17_pwl_convex_areas.
+
+(* the cost-variable formulation itself (makeAy: m * Pg - y <= m p_i - c_i for every segment): the values y that satisfy
+   all constraints of the row are exactly those with y >= user function, hence the minimised cost variable is the user's
+   function — no appeal to "y is the maximum of the lines" *)
+Theorem C17_pwl_ccv_min : forall t pts p, pts <> [] -> convex_areas pts = true ->
+  exists r, pwl_row t pts = Ok r /\
+    forall y, ay_feasible r (res_sign t * p) y <-> user_pwl pts p <= y.
+Proof. exact pwl_ccv_min. Qed.
+Print Assumptions C17_pwl_ccv_min.
+
+Example C17_pwl_convex_nonvacuous :
+  convex_areas [(0, 2, 1); (2, 3, 3); (3, 5, 4)] = true /\
+  obj_of_res (pwl_row Load [(0, 2, 1); (2, 3, 3); (3, 5, 4)]) (res_sign Load * (5 # 2)) = Some (7 # 2) /\
+  user_pwl [(0, 2, 1); (2, 3, 3); (3, 5, 4)] (5 # 2) == 7 # 2.
+Proof. exact pwl_convex_nonvacuous. Qed.
+
+(* convexity is needed (pypower's formulation cannot represent a concave cost): decreasing slopes on a gen *)
+Theorem C17_pwl_nonconvex_refuted :
+  exists t pts p, consecutive pts = true /\
+    forall v, obj_of_res (pwl_row t pts) (res_sign t * p) = Some v -> ~ v == user_pwl pts p.
+Proof. exact pwl_nonconvex_refuted. Qed.
+Print Assumptions C17_pwl_nonconvex_refuted.
 
 (* regression: costs_from_areas before the repair (values times sign, breakpoints not mirrored) on a load *)
 Theorem C17_pwl_old_refuted :
